@@ -251,7 +251,8 @@ LIST_STEPS = ['T = enumerate([1, 2])[0]', 'T = T + T', 'T += T', 'T = T + HT', '
               'L.pop()', 'del L[0]', 'L = L + L[:{i}]', 'HL.push({v})', 'HL += L', 'L = L + HL + L', 'L += L + L',
               'M = [L, L]\nM[0] += M[1]\nL = M[0]', 'f = x => x + x\nL = f(L)', 'L = reduce([L, L, L], (a, b) => a + b)',
               'L = sum([L, L])', 'L = sum([L, HL, L])', 'M = sum([[1, 2], L, L])\nL = M', 'L = (L | map(v => [v, v])) | reduce((a, b) => a + b) if len(L) < 50 else L']
-DICT_STEPS = ['D["n{j}"] = {v}', 'D[{j}] = {v}', 'D["k0"] = {v}', 'D["k0"] += 1', 'D[0] += 1', 'D2 = dict(D)', 'D2["z{j}"] = 1',
+DICT_STEPS = ['get(D, "missing{j}", [])', 'get(D, "m{j}", {{}})', 'D.get("q{j}", [1])\nD.get("r{j}", 0)', 'map([1, 2, 3], v => get(D, "z" + str(v), []))',
+              'D["n{j}"] = {v}', 'D[{j}] = {v}', 'D["k0"] = {v}', 'D["k0"] += 1', 'D[0] += 1', 'D2 = dict(D)', 'D2["z{j}"] = 1',
               'D = sorted(D)', 'D = dict(enumerate(L))', 'D = dict(items(D))', 'E = {{}}\nE["a"] = L\nE["a"] += L',
               'D[{j}.5] = {v}', 'D[True] = 1', 'D[None] = 1', 'del D["k1"]', 'D.remove("k2")', 'D = sorted(D, (k, v) => v)',
               'D2 = D\nD2["y{j}"] = 2', 'D = dict(map(L, v => [v, v]))', 'D[str({j})] = 1', 'D["{w}"] = D']
